@@ -385,7 +385,19 @@ def check_C03(ctx):
     repo_docs_job(ctx, ["Inv_C03"], [{"op": "clean"}])
 
 
+def truncated_closer_job(ctx, invariants):
+    """files that stop (or go on) in the middle of a closing tag's end delimiter: the element stays unclosed"""
+    q = ctx.quick
+    gens = []
+    for (ds, de) in [("<!-- <", "> -->"), ("/* <", "> */"), ("%%", "%%")] + ([] if q else [("-->", "<!--"), ("aab", "bba")]):
+        closer = ds + "/rm" + de
+        atoms = [ds + "rm name='a'" + de, "x", "\n", closer] + [closer[:len(closer) - k] for k in range(1, len(de) + 1)] + [de[-1], " "]
+        gens.append({"base": "GenAtoms", "consts": {"Atoms": [Chars(a) for a in atoms], "N": 4 if q else 5}, "cfg": {"ds": ds, "de": de}})
+    ctx.job("truncated-closers", gens=gens, invariants=invariants, ops=[{"op": "clean"}], cfg={"ds": "<", "de": ">"}, nontrivial=has_ready)
+
+
 def check_C04(ctx):
+    truncated_closer_job(ctx, ["Inv_C04"])
     block_jobs(ctx, ["Inv_C04"], [{"op": "clean"}])
     unwrap_jobs(ctx, ["Inv_C04"], [{"op": "clean"}], lite=True)
     inline_jobs(ctx, ["Inv_C04"], [{"op": "clean"}])
@@ -719,6 +731,10 @@ def check_C19(ctx):
 
 
 CLI_DOCS_DEFAULT = [
+    # expiry instants a few hours around the current instant of the C20 jobs (day 19000 = 2022-01-08T00:00:00Z): a current
+    # time re-read in the process's zone, or an offset dropped, changes the decision
+    "k\n<!-- <time-limited to='2022-01-08 03:00:00'> -->\nsoon\n<!-- </time-limited> -->\n"
+    "<!-- <time-limited to='2022-01-07 20:00:00'> -->\njust\n<!-- </time-limited> -->\nz\n",
     "a\n<!-- <time-limited to='2001-01-01 00:00:00'> -->\nold\n<!-- </time-limited> -->\n"
     "<!-- <removal-marker name='a'> -->\n  ra\n<!-- </removal-marker> -->\n"
     "<!-- <removal-marker name='feature1' unwrap-block> -->\nif (f) {\n  keep();\n}\n<!-- </removal-marker> -->\n"
@@ -753,7 +769,7 @@ def check_C20(ctx):
     if q:
         zones = [zones[ctx.seed % 4], zones[(ctx.seed + 1) % 4]]
     langs = [""] if q else ["", "C", "en_US.UTF-8", "ja_JP.UTF-8"]
-    ctx.job("cli-defaults", gens=[{"base": "GenCli", "consts": {"Docs": [Chars(d) for d in (CLI_DOCS_DEFAULT[:2] if q else CLI_DOCS_DEFAULT)],
+    ctx.job("cli-defaults", gens=[{"base": "GenCli", "consts": {"Docs": [Chars(d) for d in (CLI_DOCS_DEFAULT[:3] if q else CLI_DOCS_DEFAULT)],
                                                                 "TargetPool": [Chars("a"), Chars("feature1"), Chars("x y")],
                                                                 "Zones": zones, "Langs": langs, "OmitAll": True, "Part": "all"}}],
             invariants=["Inv_C20"], ops=[], cli=True,
